@@ -267,8 +267,35 @@ pub fn contains_unreadable(v: &V) -> Option<String> {
     }
 }
 
-/// Construct a value through the data API (add_* / start_list, add_to_list, end_list).
+/// Construct a value through the data API (add_* / start_list, add_to_list, end_list); every sub-value is created anew.
 pub fn build_value<D: GD>(d: &mut D, v: &V) -> Result<usize, String> {
+    build_value_memo(d, v, &mut None)
+}
+
+/// Like `build_value`, but structurally identical sub-values are created once and *shared*: the same address is used
+/// wherever the value occurs again (within this call and across calls that pass the same memo).
+pub fn build_value_sharing<D: GD>(d: &mut D, v: &V, memo: &mut std::collections::HashMap<String, usize>) -> Result<usize, String> {
+    let mut m = Some(std::mem::take(memo));
+    let r = build_value_memo(d, v, &mut m);
+    *memo = m.unwrap_or_default();
+    r
+}
+
+fn build_value_memo<D: GD>(d: &mut D, v: &V, memo: &mut Option<std::collections::HashMap<String, usize>>) -> Result<usize, String> {
+    let key = if memo.is_some() { Some(format!("{:?}", v)) } else { None };
+    if let (Some(m), Some(k)) = (memo.as_ref(), key.as_ref()) {
+        if let Some(a) = m.get(k) {
+            return Ok(*a);
+        }
+    }
+    let addr = build_value_inner(d, v, memo)?;
+    if let (Some(m), Some(k)) = (memo.as_mut(), key) {
+        m.insert(k, addr);
+    }
+    Ok(addr)
+}
+
+fn build_value_inner<D: GD>(d: &mut D, v: &V, memo: &mut Option<std::collections::HashMap<String, usize>>) -> Result<usize, String> {
     let e = |x: garnish_lang_simple_data::DataError| x.to_string();
     Ok(match v {
         V::Unit => d.add_unit().map_err(e)?,
@@ -322,34 +349,34 @@ pub fn build_value<D: GD>(d: &mut D, v: &V) -> Result<usize, String> {
             acc
         }
         V::Pair(a, b) => {
-            let x = build_value(d, a)?;
-            let y = build_value(d, b)?;
+            let x = build_value_memo(d, a, memo)?;
+            let y = build_value_memo(d, b, memo)?;
             d.add_pair((x, y)).map_err(e)?
         }
         V::Concat(a, b) => {
-            let x = build_value(d, a)?;
-            let y = build_value(d, b)?;
+            let x = build_value_memo(d, a, memo)?;
+            let y = build_value_memo(d, b, memo)?;
             d.add_concatenation(x, y).map_err(e)?
         }
         V::Range(a, b) => {
-            let x = build_value(d, a)?;
-            let y = build_value(d, b)?;
+            let x = build_value_memo(d, a, memo)?;
+            let y = build_value_memo(d, b, memo)?;
             d.add_range(x, y).map_err(e)?
         }
         V::Slice(a, b) => {
-            let x = build_value(d, a)?;
-            let y = build_value(d, b)?;
+            let x = build_value_memo(d, a, memo)?;
+            let y = build_value_memo(d, b, memo)?;
             d.add_slice(x, y).map_err(e)?
         }
         V::Partial(a, b) => {
-            let x = build_value(d, a)?;
-            let y = build_value(d, b)?;
+            let x = build_value_memo(d, a, memo)?;
+            let y = build_value_memo(d, b, memo)?;
             d.add_partial(x, y).map_err(e)?
         }
         V::List(items) => {
             let mut addrs = vec![];
             for i in items {
-                addrs.push(build_value(d, i)?);
+                addrs.push(build_value_memo(d, i, memo)?);
             }
             let mut l = d.start_list(addrs.len()).map_err(e)?;
             for a in addrs {
